@@ -140,13 +140,13 @@ pub fn check_single(sh: &Shared, c: &SingleCase) -> Check {
 
 pub fn strategy() -> BoxedStrategy<Case> {
     use proptest::collection::vec;
-    gen::fmt_and(|fi| (gen::narsese(gen::TermOpts { size: 20, ..gen::TermOpts::main(fi) }), vec(any::<u8>(), 0..40), vec(any::<u8>(), 0..8)).boxed())
+    gen::fmt_and(|fi| (gen::narsese(gen::TermOpts { size: 20, deep_max: 0, ..gen::TermOpts::main(fi) }), vec(any::<u8>(), 0..40), vec(any::<u8>(), 0..8)).boxed())
         .prop_map(|(fi, (v, gaps, fills))| Case { fi, v, gaps, fills })
         .boxed()
 }
 
 pub fn strategy_single() -> BoxedStrategy<SingleCase> {
-    gen::fmt_and(|fi| gen::narsese(gen::TermOpts { size: 14, depth: 3, ..gen::TermOpts::main(fi) })).prop_map(|(fi, v)| SingleCase { fi, v }).boxed()
+    gen::fmt_and(|fi| gen::narsese(gen::TermOpts { size: 14, depth: 3, deep_max: 0, ..gen::TermOpts::main(fi) })).prop_map(|(fi, v)| SingleCase { fi, v }).boxed()
 }
 
 /// small scope: C01's enumeration (every constructor / decoration) with uniform spacings 0, 1, 3
